@@ -1219,7 +1219,10 @@ impl FixtureDatabase {
 
         // Scan forward from last_sig_line looking for trailing ":"
         let lines: Vec<&str> = content.lines().collect();
+        // `first_body_line` is 1-based and must not be scanned itself (a body statement such as
+        // `for x in y:` also ends in ':'), so the exclusive 0-based end index is `first_body_line - 1`.
         let scan_end = first_body_line
+            .map(|body_line| body_line.saturating_sub(1))
             .unwrap_or(last_sig_line + 10)
             .min(last_sig_line + 10)
             .min(lines.len());
